@@ -86,7 +86,7 @@ def check(ctx):
             for e, l in flat_effects(s.effects):
                 if e['kind'] == 'hcall' and e['name'] == 'hep::accumulate':
                     sites.append((f, e))
-    ctx.count('call sites of accumulate()', len(set(e['where'] for f, e in sites)), 4)
+    ctx.count('call sites of accumulate() (entry function, site)', len(set((f.qualname, e['where']) for f, e in sites)), 4)
     for f, e in sites:
         def r2(f=f, e=e):
             w = '%s:%s' % (e['where'], f.name)
